@@ -85,7 +85,9 @@ CLAIMS: dict[str, tuple[str, str, str, str]] = {
         "FULL on the model for: line endings (crlf_same, cr_same, normalize_mixed: every mixture of LF/CRLF/CR "
         "spellings normalises like the LF source), normalize_clean (no CR/NUL survives), nul_like_fffd, "
         "indent_cols, marker_tab (+ marker_tab_spellings: the block-quote marker arithmetic depends only on "
-        "the absolute column the blank run reaches, at any nesting depth). PARTIAL: the full tab congruence "
+        "the absolute column the blank run reaches, at any nesting depth); end to end for the modelled sub-parsers "
+        "(Props/C17b.lean q_line_endings, q_nul, mini_*: any mixture of line-ending spellings and NUL vs U+FFFD give "
+        "the same token stream, for every source, rule subset and maxNesting; models tied by `miniblock`/`qblock`). PARTIAL: the full tab congruence "
         "(every rule depends on a prefix spelling only through getLines; list-marker arithmetic) is not a "
         "theorem and is decided by the oracle, exhaustive over the property's constructed family. That equal "
         "normalize results give equal parses rests on normalize being the first core rule (pinned by T1). "
